@@ -38,6 +38,8 @@ package main
 //   [i2] pendmention W                 pending transactions whose bytes mention W's script hashes
 
 import (
+	"crypto/sha256"
+	"encoding/hex"
 	"fmt"
 	"os"
 	"path/filepath"
@@ -300,6 +302,26 @@ func (x *irExec) op(in *irInst, a []string) string {
 		return dangling(e)
 	case a[0] == "stalepend" && len(a) == 1:
 		return stalePend(e, x.inst1().e.chain)
+	case a[0] == "tx" && len(a) == 5 && strings.Contains(a[4], ":bindbad:"):
+		// A:amt:bindbad:N = binding template paid to holder A whose 22-byte target has no address form
+		// (type byte 2): consensus accepts it, the node indexes the transaction under A's script hash,
+		// the wallet reads the script as unsupported (model: class raw WITH the address; fix D41)
+		outs := splitList(a[4])
+		for i, o := range outs {
+			p := strings.Split(o, ":")
+			if len(p) == 4 && p[2] == "bindbad" {
+				ai, err := e.addr(p[0])
+				if err != nil {
+					return "err"
+				}
+				t := sha256.Sum256([]byte("badtarget:" + p[3]))
+				t[20], t[21] = 2, 32
+				outs[i] = "raw:" + p[1] + ":0020" + hex.EncodeToString(ai.sh) + "16" + hex.EncodeToString(t[:22])
+			}
+		}
+		b := append([]string{}, a...)
+		b[4] = strings.Join(outs, ";")
+		return ledOp(e, b)
 	}
 	return ledOp(e, a)
 }
